@@ -46,7 +46,8 @@ impl Opts {
             .and_then(|s| s.parse().ok())
             .unwrap_or_else(|| std::thread::available_parallelism().map(|n| n.get()).unwrap_or(8));
         let scale = std::env::var("VERIF_SCALE").ok().and_then(|s| s.parse().ok()).unwrap_or(1.0);
-        Opts { seed, tier, workers, scale, dry: false }
+        let dry = std::env::var("VERIF_DRY").is_ok();
+        Opts { seed, tier, workers, scale, dry }
     }
     pub fn n(&self, quick: usize, thorough: usize) -> usize {
         let base = if self.tier == Tier::Quick { quick } else { thorough };
@@ -350,6 +351,20 @@ impl Evidence {
         let _ = std::fs::create_dir_all(&dir);
         let path = format!("{dir}/{}.json", self.property);
         std::fs::write(&path, serde_json::to_string_pretty(&ev).unwrap()).expect("write evidence");
+    }
+}
+
+/// Fold per-case digests (in case order) into one run digest; printed when VERIF_DIGEST is set
+/// (used by `sim selfcheck` to prove that a run is a pure function of the seed).
+pub fn print_run_digest(case_digests: &[String]) {
+    if std::env::var("VERIF_DIGEST").is_ok() {
+        use sha2::Digest;
+        let mut h = sha2::Sha256::new();
+        for d in case_digests {
+            h.update(d.as_bytes());
+            h.update(b"\n");
+        }
+        println!("DIGEST {}", hex::encode(h.finalize()));
     }
 }
 
